@@ -58,7 +58,9 @@ type ctl struct {
 	failNext bool
 	crash    string // "", "before", "after"
 	loadFail bool
-	writes   int
+	// loadFailK counts the injected load failures (the position at which the next one strikes)
+	loadFailK int
+	writes    int
 
 	// gate of the next Load: after gateAfter injected resources the load signals entered and waits for gate
 	gate      chan struct{}
@@ -111,6 +113,28 @@ func (f *faultStore) Load(ctx context.Context, h inmem.LoadHandler) error {
 	f.c.mu.Unlock()
 
 	if fail {
+		// the load breaks off after k resources have been handed over (k = 0, 1, 2, ... in turn; beyond the last resource: the
+		// failure comes after everything was delivered): whatever was injected by the broken load must not get in the way of
+		// the next attempt
+		f.c.mu.Lock()
+		k := f.c.loadFailK % 4
+		f.c.loadFailK++
+		f.c.mu.Unlock()
+
+		n := 0
+
+		if err := f.inner.Load(ctx, func(typ resource.Type, r resource.Resource) error {
+			if n >= k {
+				return errors.New("injected load failure")
+			}
+
+			n++
+
+			return h(typ, r)
+		}); err != nil {
+			return err
+		}
+
 		return errors.New("injected load failure")
 	}
 
@@ -282,7 +306,7 @@ func runBehaviour(t *testing.T, tr *vh.Trace, tid string, m string, beh []Step) 
 
 		defer os.RemoveAll(dir) //nolint:errcheck
 
-		e := &env{t: t, path: filepath.Join(dir, "state.db"), m: m, c: &ctl{}, crs: &vh.CrMap{}}
+		e := &env{t: t, path: filepath.Join(dir, "state.db"), m: m, c: &ctl{loadFailK: len(tid) + len(beh)}, crs: &vh.CrMap{}}
 		emit := func(l Line) {
 			l.Tid = tid
 			if l.Pv == nil {
